@@ -31,6 +31,8 @@ Definition model_op2 (m : mutator) : option op2 :=
     | M_RemoveAttributeAssignment => Some (L3 (RemoveAssign h h))
     | M_RemoveAllAttributeAssignments => Some (L3 (RemoveAllAssign h))
     | M_Bus_SetCANIDBuilder => Some (L3 (BusSetBuilder h None))
+    | M_Message_UpdateSizeByte => Some (MsgResize h 8%Z true)
+    | M_Bus_SetType => Some (BusSetType h 0%Z)
     | _ => None
     end
   end.
